@@ -20,6 +20,7 @@ import (
 	"github.com/taurusgroup/multi-party-sig/pkg/party"
 	"github.com/taurusgroup/multi-party-sig/pkg/protocol"
 	"github.com/taurusgroup/multi-party-sig/protocols/cmp"
+	cmppresign "github.com/taurusgroup/multi-party-sig/protocols/cmp/presign"
 	"github.com/taurusgroup/multi-party-sig/protocols/doerner"
 	"github.com/taurusgroup/multi-party-sig/protocols/frost"
 )
@@ -277,6 +278,9 @@ func realCatalogue(c *Ctx, rr int) {
 		}
 		add(J{"kind": "cmp/presign", "cfg": 1}, func(s []byte) protocol.StartFunc { return cmp.Presign(cmpCfg[me], signers, nil) }, sid)
 		add(J{"kind": "cmp/presign", "cfg": 2}, func(s []byte) protocol.StartFunc { return cmp.Presign(cmpCfg2[me], signers, nil) }, sid)
+		// the full variant of presigning (presign + sign in one session: the message is a session parameter)
+		add(J{"kind": "cmp/presign-full", "cfg": 1, "msg": 1}, func(s []byte) protocol.StartFunc { return cmppresign.StartPresign(cmpCfg[me], signers, msg1, nil) }, sid)
+		add(J{"kind": "cmp/presign-full", "cfg": 1, "msg": 2}, func(s []byte) protocol.StartFunc { return cmppresign.StartPresign(cmpCfg[me], signers, msg2, nil) }, sid)
 		if frostCfg[me] != nil {
 			add(J{"kind": "frost/sign", "signers": 2}, func(s []byte) protocol.StartFunc { return frost.Sign(frostCfg[me], signers, msg1) }, sid)
 			add(J{"kind": "frost/sign", "signers": 3}, func(s []byte) protocol.StartFunc { return frost.Sign(frostCfg[me], ids, msg1) }, sid)
